@@ -12,7 +12,8 @@ R.model("StoppableThread", builtin=True, fields={"stopped": "bool", "started": "
 R.model("Thread", builtin=True, fields={"started": "bool"})
 R.model("Socket", builtin=True, fields={"closed": "bool", "fd": "int"})
 R.model("Logger", builtin=True, fields={})
-R.model("SequenceGenerator", fields={"_sequence": "int"})
+R.model("SequenceGenerator", fields={"_sequence": "int", "_busy_lock": "Lock"})
+R.contract("Lock.__new__", trusted=True, params={}, returns="Lock", allocates=True)
 R.model("SessionGenerator", fields={"_base_value": "str", "_busy_lock": "Lock", "_sequence": "int",
                                     "diameter_identity": "str"})
 R.model("PeerCounters", fields={"cer": "int", "cea": "int", "dwr": "int", "dwa": "int", "dpr": "int", "dpa": "int",
